@@ -742,7 +742,7 @@ func search(c *enum.Ctx, base kase, depth int, states, trans, traces *atomic.Int
 }
 
 func run(c *enum.Ctx) {
-	c.Rule("initial grids: alignment.Seq/QSeq 1..3 rows x 1..3 columns, multi.Multi (plain and quality rows) with every layout of 1..3 rows (quick: three-row layouts only with edit sequences of length <= 2; offsets 0..2, lengths 1..3) over letters {a,c,g,-} with distinct qualities; breadth-first search over edit sequences of depth <=3 (thorough 4) over {AppendColumns 1/2 columns, AppendEach with two unequal run shapes, Delete first/last, Add a linear sequence, Flush start/end/both, Truncate (covered range, and one shorter), Subseq, Clone-and-continue, Clone-and-keep, Set}; caller buffers are overwritten after every append; after each edit Row(i).At(p), Column(p,true/false), ColumnQL(p,true), Rows/Len/Start/End, row names and the count consensus of uniform columns are compared with a plain grid model, and every retained clone/original must be unchanged; the size ladder: grids with 2^k-1, 2^k, 2^k+1 columns (3..257, thorough 1025) and appends of that many columns / runs of that many, half that many and no letters, under nine fixed edit lists; states merged on the model grid (first two levels unmerged)")
+	c.Rule("initial grids: alignment.Seq/QSeq 1..3 rows x 1..3 columns, multi.Multi (plain and quality rows) with every layout of 1..3 rows (quick: three-row layouts only with edit sequences of length <= 2; offsets 0..2, lengths 1..3; plus five layouts with rows that hold no letters yet) over letters {a,c,g,-} with distinct qualities; breadth-first search over edit sequences of depth <=3 (thorough 4) over {AppendColumns 1/2 columns, AppendEach with two unequal run shapes, Delete first/last, Add a linear sequence, Flush start/end/both, Truncate (covered range, and one shorter), Subseq, Clone-and-continue, Clone-and-keep, Set}; caller buffers are overwritten after every append; after each edit Row(i).At(p), Column(p,true/false), ColumnQL(p,true), Rows/Len/Start/End, row names and the count consensus of uniform columns are compared with a plain grid model, and every retained clone/original must be unchanged; the size ladder: grids with 2^k-1, 2^k, 2^k+1 columns (3..257, thorough 1025) and appends of that many columns / runs of that many, half that many and no letters, under nine fixed edit lists; states merged on the model grid (first two levels unmerged)")
 	c.Assume("column-stored alignments at offset 0; alignment.QSeq.Column compared only where the quality is at least the container's threshold", "fill letter for uncovered rows is the alphabet's gap with quality 0")
 	depth := 3
 	maxRows := 2
@@ -793,6 +793,15 @@ func run(c *enum.Ctx) {
 	if maxRows < 3 {
 		rec(nil, 3) // quick: every three-row layout too, with edit sequences of length <= 2
 	}
+	// rows that hold no letters yet (an alignment that is filled by appending): all rows empty, and an
+	// empty row next to filled ones
+	layouts = append(layouts,
+		[]rowDef{{0, ""}, {0, ""}},
+		[]rowDef{{0, ""}, {0, ""}, {0, ""}},
+		[]rowDef{{0, ""}, {0, "ac"}},
+		[]rowDef{{0, "a"}, {0, ""}},
+		[]rowDef{{1, "cg"}, {1, ""}, {0, "a"}},
+	)
 	for _, l := range layouts {
 		for _, kind := range []string{"multi", "mqulti"} {
 			d := depth
